@@ -3,7 +3,9 @@ package otto
 import (
 	"bytes"
 	"encoding/json"
+	"errors"
 	"fmt"
+	"strconv"
 	"strings"
 )
 
@@ -24,6 +26,14 @@ func builtinJSONParse(call FunctionCall) Value {
 
 	var root interface{}
 	err := json.Unmarshal([]byte(call.Argument(0).string()), &root)
+	var typeErr *json.UnmarshalTypeError
+	if errors.As(err, &typeErr) && strings.HasPrefix(typeErr.Value, "number") {
+		// The text is valid JSON but a number is outside the range of float64:
+		// decode it again keeping numbers as text, they become +/-Infinity below.
+		decoder := json.NewDecoder(strings.NewReader(call.Argument(0).string()))
+		decoder.UseNumber()
+		err = decoder.Decode(&root)
+	}
 	if err != nil {
 		panic(call.runtime.panicSyntaxError(err.Error()))
 	}
@@ -85,6 +95,10 @@ func builtinJSONParseWalk(ctx builtinJSONParseContext, rawValue interface{}) (Va
 		return stringValue(value), true
 	case float64:
 		return float64Value(value), true
+	case json.Number:
+		// ParseFloat yields +/-Infinity (with a range error) for a value outside float64.
+		number, _ := strconv.ParseFloat(string(value), 64)
+		return float64Value(number), true
 	case []interface{}:
 		arrayValue := make([]Value, len(value))
 		for index, rawValue := range value {
